@@ -57,15 +57,19 @@ theorem slideStep_send_frame (fuel : Nat) (f : FUid) (h : HUid) (vm vm' : VM) (c
     split at hrun
     · cases hrun; exact ⟨a1, w1⟩
     · split at hrun
-      · simp only [EStateM.bind] at hrun
-        cases hx : OMap.lookup f vm1.r.fx with
-        | none => rw [getInstX_run_none f vm1 hx] at hrun; cases hrun
-        | some x =>
-          rw [getInstX_run_some f vm1 x hx] at hrun
-          simp only at hrun
-          obtain ⟨sc, hsc⟩ := headScores_run (f, h) vm1
-          rw [hsc] at hrun
-          exact tail _ vm1 w1 a1 hrun
+      · split at hrun
+        · -- `StartFlow` without `flow_id`: the sending flow raises (fixes/C10-startflow-requires-flow-id.diff)
+          simp only [EStateM.bind, pyRaise, throw, throwThe, MonadExceptOf.throw, EStateM.throw] at hrun
+          cases hrun
+        · simp only [EStateM.bind] at hrun
+          cases hx : OMap.lookup f vm1.r.fx with
+          | none => rw [getInstX_run_none f vm1 hx] at hrun; cases hrun
+          | some x =>
+            rw [getInstX_run_some f vm1 x hx] at hrun
+            simp only at hrun
+            obtain ⟨sc, hsc⟩ := headScores_run (f, h) vm1
+            rw [hsc] at hrun
+            exact tail _ vm1 w1 a1 hrun
       · simp only [EStateM.bind] at hrun
         obtain ⟨sc, hsc⟩ := headScores_run (f, h) vm1
         rw [hsc] at hrun
